@@ -574,14 +574,27 @@ func TestC17(t *testing.T) {
 	for _, sc := range c17Scenarios() {
 		sc := sc
 		kind := "proxy"
-		for _, tg := range sc.Tags {
-			if tg == "concurrent-cancel" || tg == "held-loop" {
-				kind = "proxy-loose" // faults and cancellation in one step: judged by the predicates alone
+		has := func(tag string) bool {
+			for _, tg := range sc.Tags {
+				if tg == tag {
+					return true
+				}
 			}
-			if tg == "serve-loop-held=true" {
-				kind = "proxy-held" // a slow callback: compared with the held-loop model (Model/ProxyHeld.v)
-				break
-			}
+			return false
+		}
+		switch {
+		case has("serve-loop-held=true"):
+			kind = "proxy-held" // a slow callback: compared with the held-loop model (Model/ProxyHeld.v)
+		case has("held-loop"):
+			// both directions failing in one step, order left to the scheduler: one of the model's outcomes over all
+			// orders of internal rules and of the step's actions
+		case has("concurrent-cancel") && has("cancel-in-forwarding-loop=false") &&
+			(has("with=failread") || has("with=failwrite") || has("with=dialfail") || has("with=two-failreads")):
+			// a fault and the cancellation in one step: likewise
+		case has("concurrent-cancel"):
+			// cancellation from inside the forwarding loop, or together with traffic / an answered dial: the
+			// exploration with the cancellation pending is unreduced and too wide (minutes per case): predicates only
+			kind = "proxy-loose"
 		}
 		jobs = append(jobs, func(idx int, em *Emitter) { runPxScenario(t, idx, kind, sc, em) })
 	}
